@@ -1,6 +1,174 @@
 package main
 
-// tryReplay attempts to reproduce a failed obligation on the real code.
+import (
+	"encoding/json"
+	"fmt"
+	"os"
+	"os/exec"
+	"path/filepath"
+	"strings"
+)
+
+// tryReplay attempts to reproduce a failed obligation on the REAL code: the replay harness
+// (/verif/replay/harness_test.go.txt, injected with `go test -overlay`, nothing is written into the
+// repository) runs a corpus of templates / helper calls on the working tree and on a pristine copy of
+// HEAD; a case that panics or hangs on the working tree, or whose outcome differs from the baseline, is
+// the failing input. The verdict was already reached deductively; this only finds the witness.
 func tryReplay(eng *Engine, verifDir, prop string, g *oblGroup, rec map[string]interface{}) bool {
+	if os.Getenv("VERIF_NO_REPLAY") != "" {
+		return false
+	}
+	harness := filepath.Join(verifDir, "replay", "harness_test.go.txt")
+	if _, err := os.Stat(harness); err != nil {
+		harness = "/verif/replay/harness_test.go.txt"
+		if _, err := os.Stat(harness); err != nil {
+			return false
+		}
+	}
+	family := "render"
+	switch {
+	case strings.HasPrefix(g.Name, "lexer.") || strings.HasPrefix(g.Name, "parser.") || strings.HasPrefix(g.Name, "ast."):
+		family = "parse"
+	case strings.HasPrefix(g.Name, "iterators.") || strings.HasPrefix(g.Name, "meta.") || strings.HasPrefix(g.Name, "text.") ||
+		strings.Contains(g.Name, "ranger") || strings.Contains(g.Name, "roupBy") || strings.Contains(g.Name, "verifDrain"):
+		family = "helpers"
+	}
+	if cached, ok := replayCache[family]; ok {
+		return applyReplay(cached, rec)
+	}
+	tmp, err := os.MkdirTemp("", "pvreplay")
+	if err != nil {
+		return false
+	}
+	defer os.RemoveAll(tmp)
+	env := append(os.Environ(), "GOFLAGS=-mod=mod", "GOPROXY=off", "GOSUMDB=off", "GOTOOLCHAIN=local", "VERIF_REPLAY_FAMILY="+family)
+	// working tree
+	curOut := filepath.Join(tmp, "cur.txt")
+	ov := filepath.Join(tmp, "ov.json")
+	ovb, _ := json.Marshal(map[string]interface{}{"Replace": map[string]string{filepath.Join(eng.repo, "zz_verif_replay_test.go"): harness}})
+	os.WriteFile(ov, ovb, 0o644)
+	cmd := exec.Command("go", "test", "-overlay", ov, "-vet=off", "-count=1", "-timeout", "300s", "-run", "^TestVerifReplayHarness$", ".")
+	cmd.Dir = eng.repo
+	cmd.Env = append(env, "VERIF_REPLAY_OUT="+curOut)
+	out, err := cmd.CombinedOutput()
+	res := &replayOutcome{}
+	if _, statErr := os.Stat(curOut); statErr != nil {
+		res.note = "replay harness did not run on the working tree: " + truncate(string(out), 400)
+		replayCache[family] = res
+		return applyReplay(res, rec)
+	}
+	_ = err
+	// baseline: HEAD of the repository (or of /repo when the tree under check is a plain copy)
+	baseRepo := eng.repo
+	if _, e := os.Stat(filepath.Join(baseRepo, ".git")); e != nil {
+		baseRepo = "/repo"
+	}
+	baseDir := filepath.Join(tmp, "base")
+	os.MkdirAll(baseDir, 0o755)
+	baseOut := filepath.Join(tmp, "base.txt")
+	sh := exec.Command("sh", "-c", fmt.Sprintf("git -C %s archive HEAD | tar -x -C %s", baseRepo, baseDir))
+	haveBase := sh.Run() == nil
+	if haveBase {
+		hb, _ := os.ReadFile(harness)
+		os.WriteFile(filepath.Join(baseDir, "zz_verif_replay_test.go"), hb, 0o644)
+		bc := exec.Command("go", "test", "-vet=off", "-count=1", "-timeout", "300s", "-run", "^TestVerifReplayHarness$", ".")
+		bc.Dir = baseDir
+		bc.Env = append(env, "VERIF_REPLAY_OUT="+baseOut)
+		bc.CombinedOutput()
+		if _, e := os.Stat(baseOut); e != nil {
+			haveBase = false
+		}
+	}
+	cur := readOutcomes(curOut)
+	var base map[string]string
+	if haveBase {
+		base = readOutcomes(baseOut).m
+	}
+	// 1. panics / hangs that the baseline does not have
+	for _, k := range cur.order {
+		o := cur.m[k]
+		if strings.Contains(o, "PANIC") || o == "\"HANG\"" {
+			if base != nil && base[k] == o {
+				continue
+			}
+			res.found, res.key, res.cur = true, k, o
+			if base != nil {
+				res.base = base[k]
+			}
+			res.cases = len(cur.order)
+			replayCache[family] = res
+			return applyReplay(res, rec)
+		}
+	}
+	// 2. first behavioural difference from the baseline
+	if base != nil {
+		for _, k := range cur.order {
+			if b, ok := base[k]; ok && b != cur.m[k] {
+				res.found, res.key, res.cur, res.base = true, k, cur.m[k], b
+				break
+			}
+		}
+	}
+	res.cases = len(cur.order)
+	if !res.found {
+		res.note = fmt.Sprintf("replay harness: %d cases on the real code, none panics, hangs or differs from the baseline (HEAD)", len(cur.order))
+	}
+	replayCache[family] = res
+	return applyReplay(res, rec)
+}
+
+type replayOutcome struct {
+	found          bool
+	key, cur, base string
+	note           string
+	cases          int
+}
+
+var replayCache = map[string]*replayOutcome{}
+
+func applyReplay(r *replayOutcome, rec map[string]interface{}) bool {
+	if r.found {
+		parts := strings.SplitN(r.key, "\t", 2)
+		in := r.key
+		kind := ""
+		if len(parts) == 2 {
+			kind, in = parts[0], parts[1]
+		}
+		rec["replay"] = map[string]interface{}{
+			"harness":            "/verif/replay/harness_test.go.txt (go test -overlay, in package plush)",
+			"cases_run":          r.cases,
+			"kind":               kind,
+			"failing_input":      in,
+			"outcome_on_current": r.cur,
+			"outcome_on_HEAD":    r.base,
+		}
+		return true
+	}
+	rec["replay"] = map[string]interface{}{"note": r.note, "cases_run": r.cases}
 	return false
+}
+
+type outcomes struct {
+	order []string
+	m     map[string]string
+}
+
+func readOutcomes(path string) outcomes {
+	o := outcomes{m: map[string]string{}}
+	b, err := os.ReadFile(path)
+	if err != nil {
+		return o
+	}
+	for _, l := range strings.Split(string(b), "\n") {
+		f := strings.SplitN(l, "\t", 3)
+		if len(f) != 3 {
+			continue
+		}
+		k := f[0] + "\t" + f[1]
+		if _, dup := o.m[k]; !dup {
+			o.order = append(o.order, k)
+		}
+		o.m[k] = f[2]
+	}
+	return o
 }
